@@ -373,7 +373,9 @@ func runGenerator(sc *Scenario) (res Result) {
 		e.cancelled = true
 		e.cancel()
 		synctest.Wait()
-		time.Sleep(10 * freq)
+		// after a cancel Emit may still win the send arm while its buffer has room (a ready select arm is picked at
+		// random); once the buffer is full only the cancel arm is left: capacity + a margin of ticks is a sound horizon
+		time.Sleep(time.Duration(sc.Caps0()+12) * freq)
 		synctest.Wait()
 	}
 	check := func() string {
